@@ -26,7 +26,7 @@ EXPLANATION = (
     "hands every input edge to the kernel (no first-seen de-duplication) so that the kernel's duplicate-edge rule "
     "(minimum) matches the Python implementation's; undirected expansion mirrors both orientations; (O5) routing - "
     "the decorator forwards *args/**kwargs unchanged to either arm and falls back to Python when no adapter is "
-    "registered; (O6) Kahn's bookkeeping in the Python topological sort counts every stored edge occurrence once (the kernel does); (G3) no Python implementation keeps state between calls. (O7) both PageRank loops compare the same measure of change with the tolerance. (O8) the Python edge-list wrappers build one successor list per node from every input edge and delegate with it. NOT decided: algorithmic equivalence of the Rust kernels and the Python bodies (cross-language "
+    "registered; (O6) Kahn's bookkeeping in the Python topological sort counts every stored edge occurrence once (the kernel does); (G3) no Python implementation keeps state between calls. (O7) both PageRank loops compare the same measure of change with the tolerance. (O8) the Python edge-list wrappers build one successor list per node from every input edge and delegate with it. (O9) adapters build their Results only after the kernel call. NOT decided: algorithmic equivalence of the Rust kernels and the Python bodies (cross-language "
     "semantics)."
 )
 
@@ -334,6 +334,20 @@ def run(ctx: Ctx):
     ctx.ob("C12-O5", "R18 routing", gb, "explicit 'python' never routes to rust; explicit 'rust' raises when unavailable", "if requested == 'python':\n        return 'python'" in tb and "raise ImportError" in tb, "", node=gb.node)
     ra = ctx.func("rust", "rust_adapter.decorator")
     ctx.ob("C12-O5", "R18 routing", ra, "rust_adapter registers the function under the given name and returns it unchanged", "_adapters[name] = fn" in ast.unparse(ra.node) and "return fn" in ast.unparse(ra.node), "", node=ra.node)
+    # O9 an adapter gives no verdict of its own: every Result it builds comes after the kernel call it reports on
+    n_ad = 0
+    for name, a in sorted(adapters.items()):
+        acfg = cfg_of(a.node)
+        kcalls = [n for n in own_nodes(a.node) if isinstance(n, ast.Call) and isinstance(n.func, ast.Attribute) and isinstance(n.func.value, ast.Name) and n.func.value.id == "rust"]
+        if not kcalls:
+            continue
+        knodes = [acfg.stmt_node_containing(k) for k in kcalls]
+        for s_ in result_sites(a):
+            n_ad += 1
+            okd = any(acfg.dominates(kn, s_.node) for kn in knodes)
+            ctx.ob("C12-O9", "R14 GATE", a, f"pair:{name} every Result of the adapter is built after the kernel ran", okd, "a verdict decided before the kernel is called is the adapter's own reasoning about the input; where it differs from the Python implementation's the two back-ends disagree", node=s_.call)
+    ctx.floor("adapter Result sites", n_ad, 9)
+
     # O7 the two PageRank loops stop on the same quantity (status near the iteration limit depends on it)
     prf = ctx.func("pagerank", "pagerank")
     upd = [n for n in own_nodes(prf.node) if isinstance(n, (ast.Assign, ast.AugAssign)) and "abs(" in ast.unparse(n.value) and "new_scores" in ast.unparse(n.value)]
@@ -467,6 +481,12 @@ def _v_scc_wrapper_dedups(tree):
     M.replace_stmt(g, lambda s: isinstance(s, ast.Expr) and M.src_is(s.value, "adj[u].append(v)"), M.stmts("if v not in adj[u]:\n    adj[u].append(v)"))
 
 
+def _v_topo_adapter_density_shortcut(tree):
+    g = M.find_func(tree, "_topo_edges_rust")
+    first = next(s for s in g.body if isinstance(s, ast.Assign) and M.src_has(s.value, "rust.topological_sort"))
+    M.replace_stmt(g, lambda s: s is first, lambda s: M.stmts("if len(edges) > n_nodes * (n_nodes - 1) // 2:\n    return Result(None, 0, 0, 0, Status.INFEASIBLE)") + [s])
+
+
 def _v_adjacency_memo(tree):
     g = M.find_func(tree, "dijkstra_edges")
     M.replace_stmt(g, lambda s: isinstance(s, ast.For) and M.src_is(s.iter, "edges"), [])
@@ -518,6 +538,7 @@ VARIANTS = [
     M.Variant("Python floyd_warshall skips self loops, the kernel does not (seed C12-E)", "solvor/floyd_warshall.py", _v_fw_skip_self_loops, "C12-O4"),
     M.Variant("Python PageRank stops on the largest single change, the kernel on the total change (original defect)", "solvor/pagerank.py", _v_pagerank_max_norm, "C12-O7"),
     M.Variant("Python SCC wrapper de-duplicates successors", "solvor/scc.py", _v_scc_wrapper_dedups, "C12-O8"),
+    M.Variant("topological-sort adapter answers INFEASIBLE for dense edge lists without calling the kernel (seed C12-H)", AD, _v_topo_adapter_density_shortcut, "C12-O9"),
     M.Variant("twin: reformat adapters", AD, _t_reformat, None),
     M.Variant("twin: reformat rust/__init__", RI, _t_reformat, None),
 ]
